@@ -164,6 +164,10 @@ theorem C20_proxy_state_is_per_invocation :
     Skeleton.current.pxClosureIdPerInvocation = true ∧ Skeleton.current.pxArgsFreshPerInvocation = true ∧
     Skeleton.current.pxCtxIsInvocationCtx = true := by decide
 
+/-- The hook structs belong to the application; one `LinkHooks` value may be handed to many concurrently established links. The library never assigns to a field of one (checked against the regenerated skeleton) — filling in no-op callbacks in place would be an unsynchronised check-then-write on shared memory. -/
+theorem C20_hook_structs_are_only_read :
+    Skeleton.current.hooksNeverWritten = true := by decide
+
 end Panrpc.Ls
 
 #print axioms Panrpc.Ls.lockset_race_free
@@ -173,3 +177,4 @@ end Panrpc.Ls
 #print axioms Panrpc.Ls.C20_unlocked_write_races
 #print axioms Panrpc.Ls.C20_locks_are_shared
 #print axioms Panrpc.Ls.C20_proxy_state_is_per_invocation
+#print axioms Panrpc.Ls.C20_hook_structs_are_only_read
